@@ -116,6 +116,16 @@ func shortestOK(out []byte, f float64) bool {
 
 var c18Prefixes = [...]string{"", "[1e-7,", "\"e-07\":", "-0.", "1.0", "2e-0", "0.000000", "[1.5e-9,\"e-0\",9"}
 
+func c18Append(dst []byte, f float64) (out []byte, err error, panicked string) {
+	defer func() {
+		if r := recover(); r != nil {
+			panicked = fmt.Sprint(r)
+		}
+	}()
+	out, err = simdjson.VerifAppendFloat(dst, f)
+	return
+}
+
 func (c *c18ctx) check(f float64) {
 	if math.IsInf(f, 0) || math.IsNaN(f) {
 		return
@@ -133,7 +143,14 @@ func (c *c18ctx) check(f float64) {
 	// the number is appended to a buffer that already holds output (as inside MarshalJSON):
 	// prefixes ending in bytes the writer or its exponent clean-up could take for its own
 	pre := c18Prefixes[int(c.count%int64(len(c18Prefixes)))]
-	full, err := simdjson.VerifAppendFloat(append(c.buf[:0], pre...), f)
+	full, err, pan := c18Append(append(c.buf[:0], pre...), f)
+	if pan != "" {
+		var cs [8]byte
+		binary.LittleEndian.PutUint64(cs[:], math.Float64bits(f))
+		w.Violate(Violation{Harness: c.name, Fingerprint: "C18/panic", What: "formatting a finite value panicked: " + pan, Case: cs[:], CaseText: fmt.Sprintf("float64 bits 0x%016x (%g)", math.Float64bits(f), f), Config: c.cfg.String()})
+		c.buf = nil
+		return
+	}
 	out := full
 	w.res.Validated++
 	bad, fp := "", ""
